@@ -183,7 +183,9 @@ func main() {
 	// de-duplicate extra-config violations already reported in the main config
 	have := map[string]bool{}
 	for _, o := range r.Obs {
-		have[o.key()] = true
+		if o.Status == "violated" {
+			have[o.key()] = true
+		}
 	}
 	var filtered []*Ob
 	for _, o := range extraObs {
